@@ -152,6 +152,40 @@ theorem C17_session_independent (s : Session) (a : ReadIn) (bs : List ReadIn)
   rw [outName_eq, outName_eq] at hn
   exact hcode b hb (C17_two_docs_independent _ _ _ _ (hlen b hb) hn)
 
+/-- **The digest naming, under explicit collision-freeness.**  Let `dg` give digests of one length and be collision-free on
+    the contents read in the session (`dg b = dg a → b = a` for the later documents `b`).  Then, whatever the stems:
+    (1) reading `a` and then any later files leaves the source and the loaded text under `a`'s handle those of `a`'s content;
+    (2) two files with different contents get different module names (`dg c₁ ≠ dg c₂`, any stems);
+    (3) the same content under stems that normalise alike gets the same module name and the same code — the second read
+        rewrites the file with the text it already has (harmless). -/
+theorem C17_session_digest_naming (dg cg : String → String) (N : Nat) (hlen : ∀ c, (dg c).length = N) :
+    (∀ (s : Session) (stemA a : String) (bs : List (String × String)),
+        (∀ b ∈ bs, dg b.2 = dg a → b.2 = a) →
+        let ra := readInOf dg cg stemA a
+        let rbs := bs.map fun b => readInOf dg cg b.1 b.2
+        sourceOf (readAll (readDoc s ra).1 rbs).1 (readDoc s ra).2 = some (cg a) ∧
+        loadedOf (readAll (readDoc s ra).1 rbs).1 (readDoc s ra).2 = some (cg a)) ∧
+    (∀ s1 s2 c1 c2, dg c1 ≠ dg c2 → outName (readInOf dg cg s1 c1) ≠ outName (readInOf dg cg s2 c2)) ∧
+    (∀ s1 s2 c, normStem s1 = normStem s2 →
+        outName (readInOf dg cg s1 c) = outName (readInOf dg cg s2 c) ∧ (readInOf dg cg s1 c).code = (readInOf dg cg s2 c).code) := by
+  refine ⟨?_, ?_, ?_⟩
+  · intro s stemA a bs hcf
+    apply C17_session_independent
+    · intro b hb
+      obtain ⟨b0, _, rfl⟩ := List.mem_map.mp hb
+      simp [readInOf, hlen]
+    · intro b hb hd
+      obtain ⟨b0, hb0, rfl⟩ := List.mem_map.mp hb
+      simp only [readInOf] at hd ⊢
+      rw [hcf b0 hb0 hd]
+  · intro s1 s2 c1 c2 hne heq
+    rw [outName_eq, outName_eq] at heq
+    exact hne (C17_two_docs_independent _ _ _ _ (by simp [readInOf, hlen]) heq)
+  · intro s1 s2 c hn
+    refine ⟨?_, rfl⟩
+    rw [outName_eq, outName_eq]
+    simp [readInOf, moduleName, hn]
+
 /-- the handles `read` returns are the module names, in order -/
 theorem C17_session_handles (s : Session) (ds : List ReadIn) : (readAll s ds).2 = ds.map outName :=
   readAll_handles ds s
@@ -205,6 +239,15 @@ theorem C17_names_check_passes_on_distinct (s : SymRepr) (hnd : ((compFns s).map
     have := eq_of_name_eq_of_nodup _ hnd f hf g hmem hg.1
     subst this
     simp
+
+/-- the renaming of shadowing parameters (`sympy_to_python_fn`, F-C17-13): as many parameters as arguments, none of them
+    a name the body calls, and nothing changes when no argument is such a name — the call sites are positional, so the
+    references of `C17_codegen_refs_resolve` are unaffected -/
+theorem C17_shadow_rename (called args : List String) :
+    (shadowRename called args).length = args.length ∧
+    (∀ x ∈ shadowRename called args, called.contains x = false) ∧
+    ((∀ a ∈ args, called.contains a = false) → shadowRename called args = args) :=
+  shadowGo_spec called args (args ++ called) (fun c hc => List.mem_append_right _ hc)
 
 /-- **No overwrite happens**: the emitted function names are pairwise distinct, and there is one definition per
     function the representation asks for (initial assignments, derived quantities, reactions, computed
